@@ -10,8 +10,9 @@ DEFAULT_CHECKS = ["--bounds-check", "--pointer-check", "--signed-overflow-check"
 
 def _limits(mem_gb):
     def f():
-        b = int(mem_gb * (1 << 30))
-        resource.setrlimit(resource.RLIMIT_AS, (b, b))
+        if mem_gb:   # 0/None: no address-space limit (Lean reserves far more virtual memory than it uses)
+            b = int(mem_gb * (1 << 30))
+            resource.setrlimit(resource.RLIMIT_AS, (b, b))
         os.setsid()
     return f
 
@@ -194,7 +195,7 @@ def run_obligation(ob, scratch, tier, kf_defines):
     res["workdir"] = wd
     if ob["route"] == "L":   # spec-level lemma / supporting fact checked by an external tool (Lean, python3)
         cmd = [c.replace("{VERIF}", VERIF).replace("{SCRATCH}", scratch) for c in ob["cmd"]]
-        rc, out, err = sh(cmd, wd, resolve(ob.get("timeout_s", 300), tier), resolve(ob.get("mem_gb", 8), tier), res["log"])
+        rc, out, err = sh(cmd, wd, resolve(ob.get("timeout_s", 300), tier), 0, res["log"])
         res["checker_cmd"] = " ".join(cmd)
         res["n_props"] = 1
         res["backend"] = ob.get("backend", cmd[0])
